@@ -763,16 +763,29 @@ class Live:
         from batchdb import race as R
         a, b, k = op.get('first'), op.get('second'), op.get('pause')
         ok = (isinstance(a, dict) and isinstance(b, dict) and a.get('op') in R.RACE_OPS and b.get('op') in R.RACE_OPS
-              and isinstance(k, int) and not isinstance(k, bool) and 0 <= k <= R.MAX_PAUSE and 'time' not in a and 'time' not in b)
+              and isinstance(k, int) and not isinstance(k, bool) and 0 <= k <= R.MAX_PAUSE)
         if not ok:
             return {'err': 'BadRequest'}
         w = self.world
+        # virtual clock: the wall clock is the maximum of all times seen; each of the two ops runs at its own "time" (or the wall clock)
+        times = {}
+        for name, x in (('first', a), ('second', b)):
+            t = x.get('time')
+            if isinstance(t, int) and not isinstance(t, bool):
+                Clock.wall = max(Clock.wall, t)
+                times[name] = t
+        self.engine.now_msec = Clock.wall
+
+        def set_clock(name):
+            Clock.now = times.get(name, Clock.wall)
         saved = R.save_engine(self.engine)
+        insts = w.driver.inst_coll_manager.name_instance
+        saved_insts = (dict(insts), {n: dict(i.__dict__) for n, i in insts.items()})      # the driver's in-memory instance objects
         mid = {}
 
         def first_done():
             mid['obs'] = w.obs()
-        ctl = R.RaceControl(self.engine, k, first_done)
+        ctl = R.RaceControl(self.engine, k, first_done, lambda p: set_clock(p.name))
         w.db.race = ctl
         try:
             done = await ctl.run(lambda: self._answer(a), lambda: self._answer(b))
@@ -782,14 +795,22 @@ class Live:
         if done:
             info.update(mode='overlap', first=ctl.first.result, second=ctl.second.result, order=list(ctl.order), paused=ctl.paused,
                         admissible=ctl.admissible, blocked_on=ctl.blocked_on, prefix=ctl.first.kinds[:k] if ctl.paused else None,
+                        paused_in_procedure=ctl.paused_in_proc,
                         stale_reads=ctl.first.stale_reads + ctl.second.stale_reads, statements=[ctl.first.kinds, ctl.second.kinds])
             what = 'overlap:' + ('blocked' if ctl.blocked_on else ('paused' if ctl.paused else ('inadmissible' if not ctl.admissible else 'not-reached')))
         else:
             # outside the modelled part of InnoDB: back to the state before the race, then one after the other
             R.restore_engine(self.engine, saved)
             self.engine.sessions[:] = []
+            insts.clear()
+            insts.update(saved_insts[0])
+            for n, d in saved_insts[1].items():
+                insts[n].__dict__.clear()
+                insts[n].__dict__.update(d)
+            set_clock('first')
             ra = await self._answer(a)
             mid['obs'] = w.obs()
+            set_clock('second')
             rb = await self._answer(b)
             info.update(mode='serial', reason=ctl.inconclusive, first=ra, second=rb, order=['first', 'second'], paused=False,
                         admissible=ctl.admissible, blocked_on=ctl.blocked_on, stale_reads=0)
